@@ -220,7 +220,20 @@ func evalC11(c c11Case, o *Obs) error {
 				set[i], set[j] = set[j], set[i]
 			}
 		}
+		setBefore := make([]chainhash.Hash, len(set))
+		setPtrs := append([]*chainhash.Hash{}, set...)
+		for i, h := range set {
+			setBefore[i] = *h
+		}
 		msg, idx = merkleblock.NewMerkleBlockWithTxnSet(block, set)
+		for i := range set { // the caller's hash list is an argument, not scratch space
+			if set[i] != setPtrs[i] || *set[i] != setBefore[i] {
+				return fmt.Errorf("n=%d: NewMerkleBlockWithTxnSet modified the caller's hash list (entry %d of %d)", c.N, i, len(set))
+			}
+		}
+		if msgAgain, idxAgain := merkleblock.NewMerkleBlockWithTxnSet(bchutil.NewBlock(blk), set); !u32Equal(idxAgain, idx) || !msgEqual(msgAgain, msg) {
+			return fmt.Errorf("n=%d subset %v: building the proof a second time from the same hash list reveals %v, the first time %v", c.N, c.Subset, idxAgain, idx)
+		}
 	case "filter":
 		mk := func() (*bloom.Filter, *refBloom) {
 			f := bloom.LoadFilter(wire.NewMsgFilterLoad(make([]byte, 20000), 10, uint32(c.Salt), wire.BloomUpdateNone))
@@ -461,6 +474,18 @@ func evalC11Dag(c c10Case, o *Obs) error {
 		return fmt.Errorf("block of %d transactions (order %v, flags %d): merkleblock.NewMerkleBlockWithFilter reveals %v, bloom.NewMerkleBlock reveals %v (messages equal: %v)",
 			len(perm), perm, c.Flags, ia, ib, msgEqual(ma, mb))
 	}
+	// the subset the filter induces contains every transaction relevant to it (exact-set fixpoint), in any order
+	relevant, _ := exactRelevant(c.Flags, txs, items)
+	revealed := map[uint32]bool{}
+	for _, i := range ia {
+		revealed[i] = true
+	}
+	for pos, pi := range perm {
+		if relevant[pi] && !revealed[uint32(pos)] {
+			return fmt.Errorf("block of %d transactions (order %v, flags %d): the proof reveals %v but omits position %d, a transaction relevant to the filter",
+				len(perm), perm, c.Flags, ia, pos)
+		}
+	}
 	// both messages are the canonical tree for the revealed set and extract to it
 	chosen := make([]bool, len(perm))
 	for _, i := range ia {
@@ -585,7 +610,7 @@ func TestC11(t *testing.T) {
 			}
 		}
 		kC11.Run(t, ev, perShard(pick(1500, 600000)))
-		kC11Dag.Run(t, ev, perShard(pick(1500, 300000)))
+		kC11Dag.Run(t, ev, perShard(pick(6000, 600000)))
 		ev.requireClasses("C11:subset-empty", "C11:subset-full", "C11:subset-singleton", "C11:subset-proper",
 			"C11:mode=filter", "C11:mode=txnset", "C11:n-not-power-of-two", "C11:dag-flags=1", "C11:dag-flags=2")
 	})
